@@ -67,6 +67,7 @@ var fsDirs = []string{"views", "views/partials", "admin", "views/a", "a", "z", "
 
 func genFsCase(r *Rng, out *outFiles) {
 	files := map[string]string{}
+	frags := map[string][]string{} // file -> fragment names it defines (at any depth)
 	modes := map[string]fs.FileMode{}
 	n := 1 + r.Intn(9)
 	fragNames := []string{"frag.html", "views/frag.html", "f1", "box", "a.html"}
@@ -77,11 +78,18 @@ func genFsCase(r *Rng, out *outFiles) {
 		}
 		name := dir + r.Pick(fsNames)
 		var content string
+		delete(frags, name) // the same path may be generated twice: the later content wins
 		switch c := r.Intn(100); {
 		case c < 50:
 			content = "<p>" + name + "</p>"
-		case c < 75:
-			content = fmt.Sprintf(`<div :define="%s">x</div><p>t</p>`, r.Pick(fragNames))
+		case c < 60:
+			fn := r.Pick(fragNames)
+			content = fmt.Sprintf(`<div :define="%s">x</div><p>t</p>`, fn)
+			frags[name] = []string{fn}
+		case c < 75: // a definition nested in another definition (and one nested in an ordinary element)
+			a, b, c2 := r.Pick(fragNames), r.Pick([]string{"in1", "in2", "box"}), r.Pick([]string{"deep", "f1"})
+			content = fmt.Sprintf(`<div :define="%s">x<i :define="%s">y</i></div><ul><li><b :define="%s">z</b></li></ul>`, a, b, c2)
+			frags[name] = []string{a, b, c2}
 		case c < 85:
 			content = `<p :text="${name}">` + "\n</p>"
 		default:
@@ -209,6 +217,11 @@ func genFsCase(r *Rng, out *outFiles) {
 			if p, ok := rel(full); ok && matcher(p) {
 				if _, e2 := m.GetTemplate(p); e2 != nil {
 					c19 = "matching file not registered under its relative path: " + p
+				}
+				for _, fn := range frags[full] {
+					if _, e2 := m.GetTemplate(fn); e2 != nil {
+						c19 = fmt.Sprintf("fragment %q defined in the registered file %s is not registered", fn, p)
+					}
 				}
 			}
 		}
